@@ -47,6 +47,9 @@ CHECKS = {
  "C11": (MC, "TLA+ Views (Elems of every view expression by structural recursion) and Cursors (the Range/Slice cursor machines of src/Iter.c transcribed) checked by TLC on the complete parameter grid; the grids and random view compositions iterated on the real library; every view validated by TLC (ViewTrace)",
          "TLC evaluates the cursor machines (init/next/last/prev, len, get, argument clamping, Slice iteration by the Range cursor) against the definitions for every (start, stop, step) in -8..8 and `_` and every underlying length 0..6, including that no position outside the underlying iterable is addressed; the as-found Range_Len / Range_Iter_Last are refuted. The same grids and thousands of random compositions (depth <= 3) of Array, List, Tuple, Table, Tree, Range, Slice/reverse, Zip, enumerate, Filter and Map are iterated forwards and backwards on the real library with len and get(+-i), and TLC recomputes Elems(view) for each and compares; the thorough tier repeats part of it under AddressSanitizer.",
          "the grid is exhaustive within -8..8 / length 6 only; items are Ints; Zip and Slice need inputs that implement len", "5/C11"),
+ "C19": (MC, "TLA+ ObjLife outcome table (allocation class x registered x operation) checked over the whole matrix by TLC; every way of obtaining an object x every disposing operation run on real objects with free() interposed; validated by TLC (ObjTrace)",
+         "TLC walks the class x operation matrix with up to three disposals per object and checks that only heap objects are ever released, at most once, and that a refused operation leaves the object live; on the real library 23 ways of obtaining an object (all allocation families, stack and static objects, copies, elements/keys/values of every container with element types of sizes 1, 8, 12 and owning types, iterator and view results, run-time type instances) are combined with del, del_raw, del_root, dealloc, dealloc_raw and the in-place String/Tuple operations, and TLC checks type_of, the header's allocation class, size(type) usable bytes without touching a neighbour, release exactly once (free() observed) for heap objects and ResourceError/ValueError with unchanged bytes and no free() for all others.",
+         "objects are released through the family that created them (in contract); open finding F-C19-del-nonheap (del of a non-heap object is silently ignored) reported by its pinned script", "5/C19"),
 }
 
 NOT_YET = {
